@@ -1,6 +1,7 @@
 import Cellml.Generated.Code.Units
 import Cellml.Tie.UnitsLemmas
 import Cellml.Props.C19
+import Cellml.Units.WorklistComplete
 import Mathlib.Tactic.SplitIfs
 
 /-! # Tie: the methods of `cellmlmanip.units.UnitStore` (generated from the source) = the hand models
@@ -91,25 +92,27 @@ theorem convertWithRules_nil (reg : Registry) (rules : List Rule) :
   rw [convertWithRules_same_dims reg rules [] [] rfl, factor_nil]
 
 /-- `UnitStore.add_unit` = `Units.addUnit`, for every store, registry, name and definition whose text
-    `Parser._make_pint_unit_definition` could build (`hdef`: the model's errors `offset` / `badNumber` are raised by the
-    parser BEFORE `add_unit` is called, `unsupported` is a multiplier outside the model's number fragment).
+    `Parser._make_pint_unit_definition` could build and pint could read (`hdef`: the model's error `offset` is raised by
+    the parser BEFORE `add_unit` is called; `badNumber` / `unsupported` are number texts outside the model's fragment,
+    see `addUnit_tie_name` for what is tied there).
     Outside (`hsup`): a definition that mentions `dimensionless` next to dimensional units, where the hand model
     abstains (`AddErr.unsupported`, known finding C03/C07).
-    Outside (`hz`): a definition in which a name that is NOT in the registry occurs with total exponent zero. There the
-    hand model and the code DISAGREE: pint evaluates every name and raises `UndefinedUnitError`, the model looks only at
-    the normalised container and defines a dimensionless unit (e.g. `add_unit('x', '((nosuch)**0)')`, see
-    notes/reports/TIE_Units.md). Not reachable through the loader, whose work list defers a definition until every
-    unit it mentions has been added. -/
+    Since the repair of the hand model (notes/reports/MODELFIX_Units.md) there is NO hypothesis about names with a total
+    exponent of zero: the model, like pint, looks every identifier of the expression up in the registry
+    (`refsKnown`; `add_unit('x', '((nosuch)**0)')` is an `UndefinedUnitError` on both sides), and it tests the name
+    before it evaluates anything, in the order of the source. -/
 theorem addUnit_tie (st : Store) (reg : Registry) (rules : List Rule) (name : String) (elems : List UnitElem)
     (k : Scale) (c : Container) (d : Bool) (hdef : defMeaning st.id elems = .ok (k, c, d))
-    (hsup : ¬ (PMap.norm c ≠ [] ∧ d = true)) (hz : allKnown reg c = allKnown reg (PMap.norm c)) :
+    (hsup : ¬ (PMap.norm c ≠ [] ∧ d = true)) :
     Gen.Units.addUnit (storeObj st reg rules) name ⟨elems, id⟩ =
       (errClass addErrClass (Units.addUnit reg st name elems)).map (added st rules name) := by
   have hp := prefixName_tie st reg rules name
   have hw := wordSub_tie st reg rules elems
   have hk : Py.isIn name (storeObj st reg rules)._known_units = st.isDefined name := isIn_known st.known name
-  unfold Gen.Units.addUnit Units.addUnit
-  simp only [hp, hw, hdef, hk]
+  have hrefs : refsKnown reg st.id elems = allKnown reg c := refsKnown_eq_allKnown elems k c d hdef
+  rw [addUnit_noOffset (defMeaning_ok_offset hdef)]
+  unfold Gen.Units.addUnit Units.addUnitWith
+  simp only [hp, hw, hdef, hk, hrefs]
   unfold Store.isDefined
   have hm : defMeaningG (mangle st.id) elems = .ok (k, c, d) := by rw [defMeaningG_mangle, hdef]
   by_cases h1 : name ∈ Cellml.Gen.cellmlUnits
@@ -119,11 +122,9 @@ theorem addUnit_tie (st : Store) (reg : Registry) (rules : List Rule) (name : St
   by_cases h3 : name ∈ Cellml.Gen.unsupportedUnits
   · simp [Py.isIn, h1, h2, h3, errClass, Except.map, throw, throwThe, MonadExceptOf.throw, bind, Except.bind,
       addErrClass]
-  by_cases h4 : allKnown reg (PMap.norm c) = true
+  by_cases h4 : allKnown reg c = true
   · by_cases h5 : PMap.norm c = []
-    · have h0 : allKnown reg [] = true := rfl
-      rw [h5] at hz
-      simp [Py.isIn, h1, h2, h3, h0, hz, h5, hm, errClass, Except.map, throw, throwThe, MonadExceptOf.throw, bind,
+    · simp [Py.isIn, h1, h2, h3, h4, h5, hm, errClass, Except.map, throw, throwThe, MonadExceptOf.throw, bind,
         Except.bind, pure, Except.pure, addErrClass, pintParse, storeObj, unitObj_beq, PMap.beq, RegObj.dimensionless,
         norm, pintTo, convertWithRules_nil, pintDefine, added, setAdd, pintUnit, HMul.hMul, Mul.mul, PMap.add]
     · have h6 : d = false := by
@@ -131,14 +132,37 @@ theorem addUnit_tie (st : Store) (reg : Registry) (rules : List Rule) (name : St
         | false => rfl
         | true => exact absurd ⟨h5, rfl⟩ hsup
       subst h6
-      rw [h4] at hz
-      simp [Py.isIn, h1, h2, h3, h4, hz, h5, hm, errClass, Except.map, throw, throwThe, MonadExceptOf.throw, bind,
+      simp [Py.isIn, h1, h2, h3, h4, h5, hm, errClass, Except.map, throw, throwThe, MonadExceptOf.throw, bind,
         Except.bind, pure, Except.pure, addErrClass, pintParse, storeObj, unitObj_beq, PMap.beq, RegObj.dimensionless,
         norm, norm_idem, pintDefine, added, setAdd, pintUnit]
-  · have h4' : allKnown reg (PMap.norm c) = false := by simpa using h4
-    rw [h4'] at hz
-    simp [Py.isIn, h1, h2, h3, h4', hz, hm, errClass, Except.map, throw, throwThe, MonadExceptOf.throw, bind,
+  · have h4' : allKnown reg c = false := by simpa using h4
+    simp [Py.isIn, h1, h2, h3, h4', hm, errClass, Except.map, throw, throwThe, MonadExceptOf.throw, bind,
       Except.bind, pure, Except.pure, addErrClass, pintParse, storeObj]
+
+/-- The three tests on the NAME come first on both sides, whatever the expression is (no hypothesis on the definition
+    besides that the parser could build its text): a built-in name, a name this store already knows, an unsupported
+    name are `ValueError`s of the generated method and of the hand model alike — also where the expression could not be
+    evaluated (`add_unit('metre', '((second)**x)')`; before the repair the model answered `BadDefinition` there). -/
+theorem addUnit_tie_name (st : Store) (reg : Registry) (rules : List Rule) (name : String) (elems : List UnitElem)
+    (hoff : elems.any elemOffsetBad = false)
+    (hname : name ∈ Cellml.Gen.cellmlUnits ∨ name ∈ st.known ∨ name ∈ Cellml.Gen.unsupportedUnits) :
+    Gen.Units.addUnit (storeObj st reg rules) name ⟨elems, id⟩ = .error ⟨"ValueError"⟩ ∧
+      errClass addErrClass (Units.addUnit reg st name elems) = .error ⟨"ValueError"⟩ := by
+  have hk : Py.isIn name (storeObj st reg rules)._known_units = st.isDefined name := isIn_known st.known name
+  rw [addUnit_noOffset hoff]
+  unfold Gen.Units.addUnit Units.addUnitWith
+  simp only [hk]
+  unfold Store.isDefined
+  by_cases h1 : name ∈ Cellml.Gen.cellmlUnits
+  · simp [Py.isIn, h1, errClass, throw, throwThe, MonadExceptOf.throw, bind, Except.bind, addErrClass]
+  by_cases h2 : name ∈ st.known
+  · simp [Py.isIn, h1, h2, errClass, throw, throwThe, MonadExceptOf.throw, bind, Except.bind, addErrClass]
+  have h3 : name ∈ Cellml.Gen.unsupportedUnits := by
+    rcases hname with h | h | h
+    · exact absurd h h1
+    · exact absurd h h2
+    · exact h
+  simp [Py.isIn, h1, h2, h3, errClass, throw, throwThe, MonadExceptOf.throw, bind, Except.bind, addErrClass]
 
 /-! ### `is_equivalent` -/
 
